@@ -68,8 +68,14 @@ VecStep ==
   /\ LET e == Rec[l] IN
        IF ~NoPanic(e) THEN Note(FALSE, e, "panic")
        ELSE LET x == VecExpected(e) IN
-            IF LanesAre(e.obs.r, x) /\ VecBoundOK(e) THEN Note(IfmaExact(e), e, [ifma_limbs |-> IfmaLimbsExpected(e)])
-            ELSE Note(FALSE, e, x)
+            IF ~(LanesAre(e.obs.r, x) /\ VecBoundOK(e)) THEN Note(FALSE, e, x)
+            \* The field VALUES are right.  If the LIMBS differ from IfmaField.tla, the kernel has been restructured (another
+            \* multiple of p in negate_lazy, another carry schedule ...): that is not a violation of any property, it means the
+            \* limb-exact model and BoundsIfma.tla no longer describe this code.  Recorded once, as a "soft" note (reported in
+            \* the evidence as a stale model); the value checks and the directed extreme operands still apply.
+            ELSE IF IfmaExact(e) \/ (\E k \in 1..Len(bad) : Has(bad[k], "soft")) \/ Len(bad) >= MaxBad THEN UNCHANGED bad
+            ELSE bad' = Append(bad, [line |-> l, i |-> e.i, op |-> e.op, cfg |-> e.cfg, soft |-> TRUE,
+                                     why |-> [ifma_limb_model_differs |-> IfmaLimbsExpected(e)]])
   /\ l' = l + 1 /\ UNCHANGED regs
 
 \* ---- parallel point formulas -------------------------------------------------------------
